@@ -13,34 +13,39 @@ Lemma bcmp_gt_lt' a b : bcmp a b = Gt -> bcmp b a = Lt.
 Proof. intros H. rewrite (bcmp_antisym a b), H. reflexivity. Qed.
 
 (* ---- size accounting of the set primitives (no sortedness needed) ---- *)
+Lemma sum_len_cons x l : sum_len (x :: l) = blen x + sum_len l.
+Proof. reflexivity. Qed.
+Lemma sum_len_nil : sum_len [] = 0.
+Proof. reflexivity. Qed.
+Opaque sum_len.
 Lemma roi_sum v l :
   sum_len (fst (roi v l)) + match snd (roi v l) with Some old => blen old | None => 0 end = sum_len l + blen v.
 Proof.
-  induction l as [|x l IH]; cbn [roi sum_len fold_right fst snd].
-  - lia.
-  - destruct (bcmp v x) eqn:E; cbn [fst snd sum_len fold_right].
-    + fold (sum_len l). lia.
-    + fold (sum_len l). lia.
-    + revert IH. destruct (roi v l) as [r o]. intros IH. cbn [fst snd sum_len fold_right] in *. fold (sum_len r). fold (sum_len l). lia.
+  induction l as [|x l IH]; cbn [roi fst snd].
+  - rewrite !sum_len_cons, !sum_len_nil. lia.
+  - destruct (bcmp v x) eqn:E; cbn [fst snd].
+    + rewrite !sum_len_cons. lia.
+    + rewrite !sum_len_cons. lia.
+    + revert IH. destruct (roi v l) as [r o]. cbn [fst snd]. intros IH. rewrite !sum_len_cons. lia.
 Qed.
 
 Lemma sdel_sum k l :
   sum_len (fst (sdel k l)) + match snd (sdel k l) with Some d => blen d | None => 0 end = sum_len l.
 Proof.
-  induction l as [|x l IH]; cbn [sdel sum_len fold_right fst snd].
-  - reflexivity.
-  - destruct (bcmp k x) eqn:E; cbn [fst snd sum_len fold_right].
-    + fold (sum_len l). lia.
-    + fold (sum_len l). lia.
-    + revert IH. destruct (sdel k l) as [r o]. intros IH. cbn [fst snd sum_len fold_right] in *. fold (sum_len r). fold (sum_len l). lia.
+  induction l as [|x l IH]; cbn [sdel fst snd].
+  - rewrite !sum_len_nil. reflexivity.
+  - destruct (bcmp k x) eqn:E; cbn [fst snd].
+    + rewrite !sum_len_cons. lia.
+    + rewrite !sum_len_cons. lia.
+    + revert IH. destruct (sdel k l) as [r o]. cbn [fst snd]. intros IH. rewrite !sum_len_cons. lia.
 Qed.
 
 Lemma sum_len_app a b : sum_len (a ++ b) = sum_len a + sum_len b.
-Proof. induction a as [|x a IH]; cbn [app sum_len fold_right]; [reflexivity|]. fold (sum_len (a ++ b)). fold (sum_len a). lia. Qed.
+Proof. induction a as [|x a IH]; cbn [app]; [rewrite sum_len_nil; lia|]. rewrite !sum_len_cons. lia. Qed.
 
 Lemma sum_len_rev l : sum_len (rev l) = sum_len l.
 Proof.
-  induction l as [|x l IH]; [reflexivity|]. cbn [rev]. rewrite sum_len_app, IH. cbn [sum_len fold_right]. fold (sum_len l). lia.
+  induction l as [|x l IH]; [reflexivity|]. cbn [rev]. rewrite sum_len_app, IH, !sum_len_cons, sum_len_nil. lia.
 Qed.
 
 (* ---- the counter ---- *)
@@ -55,13 +60,13 @@ Qed.
 Lemma pop_exact c : size_exact c -> size_exact (snd (cache_pop c)).
 Proof.
   unfold size_exact, cache_pop. intros H. destruct (items c) as [|x l] eqn:E; cbn [snd items byte_size]; [congruence|].
-  rewrite H. cbn [sum_len fold_right]. fold (sum_len l). lia.
+  rewrite H, sum_len_cons. lia.
 Qed.
 
 Lemma pop_last_exact c : size_exact c -> size_exact (snd (cache_pop_last c)).
 Proof.
   unfold size_exact, cache_pop_last. intros H. destruct (rev (items c)) as [|x l] eqn:E; cbn [snd items byte_size]; [exact H|].
-  rewrite H, <- (sum_len_rev (items c)), E, sum_len_rev. cbn [sum_len fold_right]. fold (sum_len l). lia.
+  rewrite H, <- (sum_len_rev (items c)), E, sum_len_rev, sum_len_cons. lia.
 Qed.
 
 Lemma delete_exact k c : size_exact c -> size_exact (cache_delete k c).
@@ -168,7 +173,7 @@ Proof.
   - unfold cache_push. pose proof (roi_sorted v (items c) Hso) as H. destruct (roi v (items c)) as [l o]. destruct o; exact H.
   - apply pop_exact; exact Hsz.
   - unfold cache_pop. destruct (items c) as [|x l] eqn:E; cbn [snd items]; [rewrite E; constructor|].
-    rewrite E in Hso. inversion Hso; assumption.
+    inversion Hso; assumption.
   - apply pop_last_exact; exact Hsz.
   - unfold cache_pop_last. destruct (rev (items c)) as [|x l] eqn:E; cbn [snd items]; [exact Hso|].
     exact (proj1 (sorted_set_rev_tail x l (items c) Hso E)).
@@ -219,10 +224,9 @@ Theorem cache_push_contents v c x : sorted_set (items c) ->
 Proof.
   intros Hs. unfold cache_push. pose proof (roi_in v (items c) x) as H1. pose proof (roi_has v (items c)) as H2.
   pose proof (roi_keeps v (items c) x Hs) as H3. destruct (roi v (items c)) as [l o]. cbn [fst items] in *.
-  assert (Hi : items (let sz := byte_size c + blen v in
-     {| items := l; byte_size := match o with Some old => sz - blen old | None => sz end; max_size := max_size c |}) = l) by reflexivity.
-  rewrite Hi. split; [exact H1|]. intros [->|Hin]; [exact H2|].
-  destruct (list_eq_dec N.eq_dec x v) as [->|Hne]; [exact H2|apply H3; assumption].
+  cbv zeta. destruct o; cbn [items];
+  (split; [exact H1|]; intros [->|Hin]; [exact H2|];
+   destruct (list_eq_dec N.eq_dec x v) as [->|Hne]; [exact H2|apply H3; assumption]).
 Qed.
 
 Theorem cache_delete_removes k c : sorted_set (items c) -> ~ In k (items (cache_delete k c)).
